@@ -179,6 +179,7 @@ def run_sequence(I: Interp, ops: List[Dict[str, Any]]) -> List[Tuple[Path, List[
     def thunk(I: Interp) -> Value:
         I.run.user["docs"] = {}
         marks, results = [], []
+        I.run.user["marks"], I.run.user["results"] = marks, results
         for k, op in enumerate(ops):
             path_tag = f"PATTERN_{k}"
             I.run.user["docs"][f"<{path_tag}>"] = {"config": op.get("config", {}), "pattern": ["nop"]}
@@ -203,4 +204,47 @@ def run_sequence(I: Interp, ops: List[Dict[str, Any]]) -> List[Tuple[Path, List[
         marks = path.run.user["marks"]
         facts = [op_facts(I, path.events[marks[i]:marks[i + 1]]) for i in range(len(ops))]
         out.append((path, facts, path.run.user["results"]))
+    return out
+
+
+def last_op_outcomes(I: Interp, ops: List[Dict[str, Any]]) -> set:
+    """outcome of the LAST operation of a sequence run in one process, on every path on which the earlier operations
+    completed: ('raise', exception type) or ('return', facts of that operation + result)"""
+    import re as _re
+    p = I.p
+    mop = p.find_class("MasterOfPuppets")
+    mc_cls = p.find_class("MatchConfig")
+    E = lambda cls, m: EnumV(p.find_class(cls), m)
+
+    def thunk(I: Interp) -> Value:
+        I.run.user["docs"] = {}
+        r: Value = NONE
+        for k, op in enumerate(ops):
+            tag = f"PATTERN_{k}"
+            I.run.user["docs"][f"<{tag}>"] = {"config": op.get("config", {}), "pattern": op.get("pattern", ["nop"])}
+            I.run.user["op_index"] = k
+            I.run.user["last_mark"] = len(I.run.events)
+            mc = I.construct(mc_cls, [], {
+                "pattern_pathstr": Str((Hole(tag, "path", True),)), "input_file": Str((Hole(f"INPUT_{k}", "path", True),)),
+                "input_file_type": E("InputFileType", op.get("file_type", "assembly")),
+                "return_only_address": TRUE if op.get("only_addr") else FALSE,
+                "return_mode": E("MatchingReturnMode", op.get("return_mode", "matched_addrs_list")),
+                "matching_mode": E("MatchingSearchMode", op.get("search_mode", "all_finds")), "macros": NONE}, None, None)
+            o = I.construct(mop, [], {"match_config": mc}, None, None)
+            r = I.call_func(mop.find_method("perform_matching"), [], {}, o, None, None)
+        return r
+    out = set()
+    last = len(ops) - 1
+
+    def norm(x: str) -> str:
+        return _re.sub(r"#\d+", "", x).replace(f"_{last}>", "_L>")
+    for path in I.explore(thunk):
+        if path.run.user.get("op_index") != last:
+            continue        # an earlier operation failed: not a history this rule is about
+        if path.kind == "raise":
+            out.add(("raise", path.exc.type_name))
+            continue
+        f = op_facts(I, path.events[path.run.user["last_mark"]:])
+        out.add(("return", norm(str((tuple(f["cfg_reads"]), tuple(f["observers"]), tuple(f["argv"]), tuple(f["regex"]),
+                                     I.expr_of(path.value))))))
     return out
